@@ -126,8 +126,14 @@ def error_exit_blocks(body):
     # the `?` written out by hand: `Err(v) => return Err(v)` - a block that stores an Err(..) into the return place
     for i, j, s in body.assigns():
         if s["p"]["l"] == 0 and not s["p"].get("p") and s["r"]["k"] == "agg" and s["r"].get("variant") == "Err" and \
-                str(s["r"].get("adt", "")).endswith("result::Result"):
-            out.add(i)
+                str(s["r"].get("adt", "")).endswith("result::Result") and s["r"]["ops"]:
+            # ... only when it hands on the error of a callee (`Err(v)` taken out of a matched Result).  A *new* error raised here
+            # (a second cancellation poll after the provider answered - seeds C09-1, C09-7) is not propagation: the path it
+            # leaves by still owes the bookkeeping
+            import q as _q
+            d, _ = _q.origin_thru(body, s["r"]["ops"][0], transparent=set())
+            if any(isinstance(e, dict) and e.get("as") == "Err" for e in d.get("proj", [])):
+                out.add(i)
     return out
 
 
